@@ -241,10 +241,66 @@ def interptrace(run, cfg='InterpTrace.cfg'):
         record_validate(run, 'interptrace', 'interp', 'InterpTrace.tla', cfg, n=600, maxlen=100, xss='256m', parts=6)
     else:
         record_validate(run, 'interptrace', 'interp', 'InterpTrace.tla', cfg, n=9000, maxlen=160, xss='256m', parts=12, timeout=5000)
+    corpustrace(run, cfg)
+
+
+def corpustrace(run, cfg='InterpTrace.cfg'):
+    """impl -> spec on the program corpus (corpus/*.rock: the Rockstar programs embedded in the repository's own integration tests, fixed
+    copies): each is parsed by the real parser and run on the real interpreter with the snapshot hook; TLC steps the abstract machine
+    through the recorded run (InterpTrace.tla).  The repository's tests compare the printed output only; here every intermediate
+    environment (all scopes, pronoun referent, control-flow state) after every completed statement must be the machine's."""
+    import subprocess
+    binp = build_harness('debug')
+    trace = run.path('corpus.ndjson')
+    p = subprocess.run([binp, 'record', 'corpus', '--dir', os.path.join(VERIF, 'corpus'), '--out', trace], stdout=subprocess.PIPE,
+                       stderr=subprocess.PIPE, text=True)
+    if p.returncode != 0:
+        raise ToolError('corpus recorder failed: ' + p.stderr[-800:])
+    skipped = [l[len('skipped '):] for l in p.stderr.splitlines() if l.startswith('skipped ')]
+    lines = open(trace).read().splitlines()
+    if run.tier == 'quick':      # the three fizzbuzz programs are 5 000 statement events each: one of them in the quick tier
+        lines = [l for l in lines if '"file":"fizzbuzz_four_ways-02"' not in l and '"file":"fizzbuzz_four_ways-03"' not in l]
+        with open(trace, 'w') as f:
+            f.write('\n'.join(lines) + '\n')
+    out = run.path('corpus.out')
+    res = run_tlc('InterpTrace.tla', cfg, out, workers=1, timeout=3000, extra_env={'TRACE': trace}, depth_first=True, xss='256m', heap='4g')
+    fins = {}
+    for l in open(out, errors='replace'):
+        m = re.match(r'<<"FIN", \d+, "(\w+)"', l)
+        if m:
+            fins[m.group(1)] = fins.get(m.group(1), 0) + 1
+    run.exhaustive = False
+    run.jobs.append(dict(job='corpustrace', kind='trace-validation', module='InterpTrace.tla', events=len(lines), accepted=res['ok'],
+                         states=res['distinct'], wall_s=round(res['wall'], 1), error=res['error'], machine_end_states=fins,
+                         not_recorded=skipped))
+    run.states += res['distinct']
+    run.transitions += res['states']
+    if res['ok']:
+        run.traces += len(lines)
+        run.evaluations += len(lines)
+        run.distinct_nontrivial += fins.get('ok', 0) + fins.get('err', 0)
+        for f in (trace, out):
+            try:
+                os.remove(f)
+            except OSError:
+                pass
+    else:
+        rejected = None
+        for l in open(out, errors='replace'):
+            if l.startswith('<<"REJECTED"'):
+                rejected = l.strip()[:3000]
+        if rejected is None:
+            raise ToolError('corpus trace validation failed without a rejected event: %s (see %s)' % (res['error'], out))
+        run.violations.append(dict(family=None, job='corpustrace', msg='recorded run of a corpus program rejected by InterpTrace.tla',
+                                   rec=None, rejected=rejected, trace=trace))
+
+
+CORPUS_NOTE = ('; the Rockstar programs of the repository\'s own integration tests (corpus/, fixed copies) are run on the real front end and '
+               'interpreter and every recorded run is validated by TLC against the machine, snapshot by snapshot')
 
 
 TRACE_NOTE = ('; recorded runs of seeded random programs far beyond the enumerated bounds are validated by TLC against the same machine '
-              '(InterpTrace.tla: one machine action per TLC state, every emitted snapshot must be the recorded one)')
+              '(InterpTrace.tla: one machine action per TLC state, every emitted snapshot must be the recorded one)' + CORPUS_NOTE)
 
 
 def C04(run):
@@ -331,6 +387,12 @@ def C08(run):
     # the same protocol at the process boundary (src/cli/exec.rs): a prompt written by `say` is on standard output before the
     # following `listen` gets its input; a standard output that cannot be written to is a reported runtime error; undecodable input
     clitrace(run, (('cli', 1000),))
+    run.rule += CORPUS_NOTE
+    corpustrace(run)
+    # "the canonical text of its value": say on every value of the universe (negative zero, NaN, infinities, big and tiny numbers,
+    # arrays as their length, nested arrays, strings with line breaks), through the Val API and through a program
+    run.rule += '; `say` on every value of the universe of MC_Table.tla prints the text Values!ToOutStr defines'
+    table(run, 'C08')
 
 
 def C09(run):
@@ -386,12 +448,16 @@ def C06(run):
     _C06_table(run)
     run.rule += '; family AR: all sequences of 3 (thorough: 4) array operations over variables copied from one another; ' + INTERP_NOTE
     interp(run, 'AR')
+    run.rule += CORPUS_NOTE
+    corpustrace(run)
 
 
 def C07(run):
     _C07_table(run)
     run.rule += '; family MU: mutations on variables, subscripts and pronouns with and without destination through the interpreter'
     interp(run, 'MU')
+    run.rule += CORPUS_NOTE
+    corpustrace(run)
 
 
 def lintjob(run, kind, family):
